@@ -161,6 +161,70 @@ func runC03(c *Ctx) {
 			calls = append(calls, cl)
 		}
 	}
+	// 2b. per file type, every list slot gets four messages whose message_index
+	// repeats and goes down (1, 0, 1, 0) and whose times go down: a container
+	// appends, it does not file messages under an index or sort them
+	for _, st := range sch.Types {
+		for arch := byte(0); arch < 2; arch++ {
+			s := newStream(12, false)
+			s.FileId(0, arch, byte(st.T))
+			now := uint32(0x37500000)
+			used := false
+			for si, sl := range st.Slots {
+				pm := p.by[sl.M]
+				if sl.List != 1 || pm == nil || len(pm.Fields) == 0 {
+					continue
+				}
+				var fs []FieldDef
+				hasIdx, nTimes := false, 0
+				if f := p.field(sl.M, 254); f != nil {
+					fs = append(fs, FieldDef{254, 2, 0x84})
+					hasIdx = true
+				}
+				for fi := range pm.Fields {
+					if f := &pm.Fields[fi]; f.K == 1 && nTimes < 2 {
+						fs = append(fs, FieldDef{byte(f.N), 4, 0x86})
+						nTimes++
+					}
+				}
+				// one plain field to tell the four messages apart
+				for fi := range pm.Fields {
+					if f := &pm.Fields[fi]; f.K == 0 && f.A == 0 && f.B == 2 && f.N != 254 {
+						fs = append(fs, FieldDef{byte(f.N), 1, 2})
+						break
+					}
+				}
+				if len(fs) == 0 {
+					continue
+				}
+				l := 1 + si%15
+				s.Def(l, arch, uint16(sl.M), fs, nil)
+				for k := 0; k < 4; k++ {
+					var pl []byte
+					for _, f := range fs {
+						switch {
+						case f.Num == 254 && hasIdx && f.Size == 2:
+							pl = append(pl, wire(u16le(uint16(1-k%2)), arch)...)
+						case f.Size == 4:
+							now -= uint32(50 + rng.Intn(50))
+							pl = append(pl, wire(u32le(now), arch)...)
+						default:
+							pl = append(pl, byte(10+k))
+						}
+					}
+					s.Data(l, pl)
+				}
+				used = true
+			}
+			if !used {
+				continue
+			}
+			id++
+			cl := p.runCall(id, "decode", s.Bytes(), plain, CallOpts{UM: 1}, true)
+			cl.Note = fmt.Sprintf("%s: repeating message_index, decreasing times", st.Name)
+			calls = append(calls, cl)
+		}
+	}
 	// 3. device files
 	calls = append(calls, corpusCalls(p, c, &id, c.pick(60000, 1<<30), CallOpts{})...)
 	mm := c.validateCalls(p, sch, calls, 14)
